@@ -381,6 +381,11 @@ def h_rewrite(eng, spec, props):
         if "modifications overlap" in str(ex):
             raise core.Abort()  # the library's own definition of overlapping requests
         kf = known_crash(spec, ex)
+        if kf and kf.startswith("C08"):
+            if "C08" in props:
+                eng.fail("apply() raised AssertionError in _cleanup_modified_blocks: the zero-sized block that keeps the "
+                         ".cfi_endproc can neither join the data block of the patch nor be removed", finding=kf)
+            raise core.Abort()
         if kf:
             if "C01" in props:
                 eng.fail("apply() raised AssertionError in _apply_modifications: an insertion at the end offset of a "
@@ -393,7 +398,21 @@ def h_rewrite(eng, spec, props):
             fn(sc, ls)
 
 
+def cfi_tail_data_pattern(spec):
+    """A data-only patch inserted behind the last instruction of a section's last block whose end carries .cfi_endproc."""
+    for ss in spec["sections"]:
+        last = ss["blocks"][-1]
+        ends = any(c["blk"] == last["id"] and c["at"] == len(last["atoms"]) and any(d[0] == ".cfi_endproc" for d in c["dirs"])
+                   for c in spec.get("cfi", []))
+        if ends and any(m["op"] == "insert" and m["blk"] == last["id"] and m["at"] == len(last["atoms"])
+                        and m["patch"] in ("byte", "quad", "trail_label_data", "string", "rawbytes") for m in spec.get("mods", [])):
+            return True
+    return False
+
+
 def crash_pattern(spec):
+    if cfi_tail_data_pattern(spec):
+        return True
     natoms = {b["id"]: len(b["atoms"]) for s in spec["sections"] for b in s["blocks"]}
     mods = spec.get("mods", [])
     for d in mods:
@@ -413,6 +432,8 @@ def known_crash(spec, ex):
     insertion/replacement registered for offset == size of the same block."""
     import traceback
     tb = "".join(traceback.format_exception(type(ex), ex, ex.__traceback__))
+    if "assert all(b.size for b in blocks)" in tb and cfi_tail_data_pattern(spec):
+        return "C08-data-patch-behind-the-last-procedure"
     if "assert isinstance(actual_block, gtirb.ByteBlock)" not in tb:
         return None
     return "C01-insert-at-end-of-deleted-block" if crash_pattern(spec) else None
@@ -1071,9 +1092,9 @@ def make_check_C08(tier):
     chk.install_shims = install
     chk.classify_exception = classify
     for sid, spec in rewrite_shapes.cfi_shapes(tier):
-        if crash_pattern(spec):
+        if crash_pattern(spec) and not cfi_tail_data_pattern(spec):
             continue  # apply() dies on these (finding recorded under C01); nothing to evaluate
-        chk.add(sid, h_rewrite, params=dict(spec=spec, props=["C08"]), timeout=900)
+        chk.add(sid, h_rewrite, params=dict(spec=spec, props=["C08"]), timeout=900, allow_no_pass=cfi_tail_data_pattern(spec))
     chk.bounds = dict(BOUNDS)
     chk.bounds["cfi layouts"] = ("one procedure over three blocks with personality/LSDA, remember/restore and directives at block "
                                  "start, instruction boundaries and block end; two adjacent procedures; procedures separated "
